@@ -1,6 +1,6 @@
 """C15 - dynamics: system clock ownership, hook, subclass initialisation, NLS linearisation roles, LTI equations."""
 import ast
-from ..core import RuleResult, Finding, AnalysisError, dotted, src, norm_construct, ClassInfo
+from ..core import RuleResult, Finding, AnalysisError, dotted, src, norm_construct, ClassInfo, guarded, guarded_list
 from ..expr import inline_straight, returns_of, dump, parities
 from .. import paths
 
@@ -30,6 +30,7 @@ def clock_writes(f):
     return out
 
 
+@guarded
 def rule_own_hook(repo):
     res = RuleResult('C15.OWN', 'the system clock _t is written only by System.__init__ (register_buffer), forward_hook (+1, exactly once '
                      'on every path), reset and the systime setter, and only in place (add_/fill_/copy_): a rebind would alias the '
@@ -106,6 +107,7 @@ def _stmt_of(f, node):
     return best
 
 
+@guarded
 def rule_super(repo):
     res = RuleResult('C15.SUPER', 'every System subclass __init__ in the package calls super().__init__() (buffer and hook registration)', floor=3)
     base = repo.cls(DYN, 'System')
@@ -138,6 +140,7 @@ LIN = {'A': ('state_transition', 0, '_ref_state'), 'B': ('state_transition', 1, 
 REFS = ['self._ref_state', 'self._ref_input', 'self._ref_t']
 
 
+@guarded
 def rule_lin(repo):
     res = RuleResult('C15.LIN', 'NLS: A/B differentiate state_transition, C/D observation, with respect to the state (A, C) / input (B, D) '
                      'argument, the other arguments held at the stored reference triple, evaluated at _ref_state / _ref_input; c1 = _ref_f '
@@ -195,6 +198,37 @@ def rule_lin(repo):
         if not ok:
             res.add(Finding('C15.LIN', f, 'set_refpoint does not store %s = %s(reference state, reference input, reference time)' % (attr, fn),
                             construct=attr))
+    # ... and on EVERY normal exit: a path that returns before f / g are re-evaluated leaves the previous point's values next to Jacobians
+    # taken at the current contents of the stored tensors (an identity- or flag-keyed short cut cannot see in-place changes)
+    from .. import paths as _paths
+    from ..expr import Inliner
+    pths, _ = _paths.function_paths(f.node, limit=2048)
+    n_exit = 0
+    seen = set()
+    for ev, ex in pths:
+        if ex != 'return' and ex != 'fall':
+            continue
+        inl2 = Inliner()
+        last = None
+        for e in ev:
+            if e[0] == 'stmt':
+                inl2.feed(e[1])
+                last = e[1]
+            elif e[0] == 'iter':
+                inl2.feed(e[1])
+        missing = [a for a in ('self._ref_state', 'self._ref_input', 'self._ref_t', 'self._ref_f', 'self._ref_g') if inl2.env.get(a) is None]
+        key = (getattr(last, 'lineno', 0), tuple(missing))
+        if key in seen:
+            continue
+        seen.add(key)
+        n_exit += 1
+        res.inst({'function': f.fq, 'exit at line': getattr(last, 'lineno', None), 'stores all of the reference point': not missing}, key)
+        if missing:
+            res.add(Finding('C15.LIN', f, 'set_refpoint can return without storing %s: the affine model keeps values of an earlier reference point '
+                            'while the Jacobians follow the current one' % ', '.join(m[5:] for m in missing), node=last,
+                            construct='exit without ' + ','.join(m[5:] for m in missing)))
+    if n_exit == 0:
+        raise AnalysisError('C15.LIN: no normal exit of NLS.set_refpoint found')
     return res
 
 
@@ -208,6 +242,7 @@ def _signed_terms(e, sign='+'):
     return [(sign, e)]
 
 
+@guarded
 def rule_eq(repo):
     res = RuleResult('C15.EQ', 'LTI: state_transition is A state + B input (+ c1), observation is C state + D input (+ c2); forward evaluates both '
                      'at the current state and input; LTV.set_refpoint sets the system time', floor=4)
@@ -265,6 +300,7 @@ def rule_eq(repo):
     return res
 
 
+@guarded
 def rule_pure(repo):
     from .. import effects
     res = RuleResult('C15.PURE', 'the linearisation getters (A, B, C, D, c1, c2 of LTI/LTV/NLS) are pure: reading one does not change the stored '
